@@ -29,9 +29,9 @@ def demo(cwd, src):
 
 def main():
     pid = sys.argv[1]
-    rnd = 2 if "--round2" in sys.argv else 3 if "--round3" in sys.argv else 5 if "--round5" in sys.argv else 6 if "--round6" in sys.argv else 7 if "--round7" in sys.argv else 1
+    rnd = 2 if "--round2" in sys.argv else 3 if "--round3" in sys.argv else 5 if "--round5" in sys.argv else 6 if "--round6" in sys.argv else 7 if "--round7" in sys.argv else 8 if "--round8" in sys.argv else 1
     rest = [a for a in sys.argv[2:] if not a.startswith("--")]
-    which = rest or {1: ["A", "B"], 2: ["C", "D"], 3: ["E", "F"], 5: ["G", "H"], 6: ["I", "J"], 7: ["K", "L"]}[rnd]
+    which = rest or {1: ["A", "B"], 2: ["C", "D"], 3: ["E", "F"], 5: ["G", "H"], 6: ["I", "J"], 7: ["K", "L"], 8: ["M", "N"]}[rnd]
     pre = "seed_" if rnd == 1 else f"seed{rnd}_"
     wt, od = f"/tmp/{pre}{pid}", f"/tmp/{pre}{pid}_out"
     for X in which:
